@@ -434,8 +434,92 @@ def project(problem):
     ms = problem.quality_metrics
     P["metric"] = p_metric(ms[0]) if ms else {"kind": "none", "costs": [], "default": E("none"), "expr": E("none"), "goals": []}
     P["nmetrics"] = len(ms)
-    P["ifuns"] = []
+    P["ifuns"] = [p_ifun(f) for f in _collect_ifuns(problem)]
     return P
+
+
+IFUN_GRID = list(range(-2, 7))
+
+
+def _collect_ifuns(problem):
+    """interpreted functions occurring in the problem's expressions (in order of first occurrence)"""
+    out = []
+
+    def visit(e):
+        if e.is_interpreted_function_exp() and e.interpreted_function() not in out:
+            out.append(e.interpreted_function())
+        for a in e.args:
+            visit(a)
+
+    for a in problem.actions:
+        if isinstance(a, InstantaneousAction):
+            for c in a.preconditions:
+                visit(c)
+            effs = a.effects
+        else:
+            for cl in a.conditions.values():
+                for c in cl:
+                    visit(c)
+            effs = [e for el in a.effects.values() for e in el]
+            visit(a.duration.lower)
+            visit(a.duration.upper)
+        for e in effs:
+            visit(e.condition)
+            visit(e.value)
+            visit(e.fluent)
+    for g in problem.goals:
+        visit(g)
+    for tc in problem.trajectory_constraints:
+        visit(tc)
+    return out
+
+
+def _dom_of(t):
+    if t.is_bool_type():
+        return [True, False]
+    if t.is_int_type():
+        lo = t.lower_bound if t.lower_bound is not None else IFUN_GRID[0]
+        hi = t.upper_bound if t.upper_bound is not None else IFUN_GRID[-1]
+        return [x for x in range(int(lo), int(hi) + 1) if IFUN_GRID[0] <= x <= IFUN_GRID[-1]]
+    raise ValueError("interpreted function parameter type without a finite grid: %r" % (t,))
+
+
+def p_ifun(f):
+    """tabulate an interpreted function on the finite grid of its signature (calls user code only)"""
+    import itertools
+
+    rows = []
+    for t in itertools.product(*[_dom_of(p.type) for p in f.signature]):
+        try:
+            v = f.function(*t)
+        except Exception:
+            continue
+        val = BV(v) if f.return_type.is_bool_type() else NV(Fraction(v))
+        rows.append({"args": [BV(x) if isinstance(x, bool) else NV(x) for x in t], "v": val})
+    return {"name": f.name, "sig": [{"name": p.name, "type": p_type(p.type)} for p in f.signature],
+            "ret": p_type(f.return_type), "table": rows}
+
+
+def b_ifun(f, env, types):
+    from collections import OrderedDict
+    from unified_planning.model import InterpretedFunction
+
+    table = {}
+    for r in f["table"]:
+        key = tuple((a["b"] if a["k"] == "b" else Fraction(a["n"], a["d"])) for a in r["args"])
+        v = r["v"]
+        table[key] = v["b"] if v["k"] == "b" else (v["n"] if v["d"] == 1 else Fraction(v["n"], v["d"]))
+
+    def fn(*args, _table=table, _name=f["name"]):
+        key = tuple(a if isinstance(a, bool) else Fraction(a) for a in args)
+        if key not in _table:
+            # outside the tabulated grid the function is extended by clamping (the specification
+            # treats untabulated arguments as unknown, i.e. unspecified)
+            key = tuple(a if isinstance(a, bool) else Fraction(min(max(int(a), IFUN_GRID[0]), IFUN_GRID[-1])) for a in key)
+        return _table[key]
+
+    sig = OrderedDict((p["name"], b_type(p["type"], env, types)) for p in f["sig"])
+    return InterpretedFunction(f["name"], b_type(f["ret"], env, types), sig, fn, env)
 
 
 def build(P, env=None, name=None):
@@ -472,7 +556,8 @@ def build(P, env=None, name=None):
             problem.add_fluent(fl)
         else:
             problem.add_fluent(fl, default_initial_value=b_val(f["default"], sc0))
-    sc = Scope(problem, types, fluents, objects)
+    ifuns = {f["name"]: b_ifun(f, env, types) for f in P.get("ifuns", [])}
+    sc = Scope(problem, types, fluents, objects, ifuns=ifuns)
     for i in P["init"]:
         fe = sc.em.FluentExp(fluents[i["f"]], tuple(b_val(a, sc) for a in i["args"]))
         problem.set_initial_value(fe, b_val(i["v"], sc))
